@@ -12,8 +12,6 @@ WHY_NOT = {
     "C09-m15": "as C02-m16: needs two tasks reading on one connection",
     "C10-m15": "as C02-m16: concurrent create_schedule calls on one api object",
     "C18-m19": "as C02-m16: disconnect() waits for another task's request on the same object",
-    "C03-m16": "needs a login reply that takes more than 3 s of real time (no virtual loop clock in the harness)",
-    "C01-m18": "needs an acknowledgement that takes more than 3 s of real time",
     "C02-m19": "wrong only through the NEW parameter `repeat=` it adds",
     "C03-m20": "wrong only in the NEW operation `set_light()` it adds",
     "C09-m19": "implements SwitcherType2Api.set_device_name (NotImplementedError on the pinned tree): a new operation",
@@ -26,7 +24,6 @@ WHY_NOT = {
     "C19-m20": "wrong only in the NEW classmethod from_dict() it adds",
     "C04-m22": "only under warnings-as-errors (-W error): the warning it adds becomes an exception; with the default filters every result is identical",
     "C06-m22": "only for an unknown-model frame arriving at the OTHER protocol family's well-known port of a bridge on the default ports; the running-bridge stream of C06 uses private ports",
-    "C03-m24": "needs a login reply that arrives more than 10 s of real time late (as C03-m16: no virtual loop clock in the harness)",
     "C18-m22": "an operation asked of a client that is NOT connected (it now connects by itself); the model's domain asks operations of connected clients only",
     "C01-m21": "needs a second api object's login to fail exactly between another object's IR command and its separate swing frame",
 }
